@@ -4,8 +4,10 @@
 From Coq Require Import List Bool.
 From PMS Require Import Base.PyStr Model.ConfigSyntax Model.ConfigCheck Spec.ConfigSpec.
 
-Lemma check_TCPGw (orc : avop -> pstr -> pstr -> option bool) : check_class orc TCPGw = true.
+Lemma check_TCPGw (orc : avop -> pstr -> pstr -> option bool) (cont : pstr -> bool) :
+  check_class orc cont TCPGw = true.
 Proof. vm_cast_no_check (eq_refl true). Qed.
 
-Lemma check_AsyncTCPGw (orc : avop -> pstr -> pstr -> option bool) : check_class orc AsyncTCPGw = true.
+Lemma check_AsyncTCPGw (orc : avop -> pstr -> pstr -> option bool) (cont : pstr -> bool) :
+  check_class orc cont AsyncTCPGw = true.
 Proof. vm_cast_no_check (eq_refl true). Qed.
